@@ -33,7 +33,8 @@ def check(ctx):
         res3, corr3 = _c08.oracle_and_corr(c)
         res3['failures'] = [f for f in res3['failures'] if f.get('signature') != 'fixedstruct:nul-after-each-record']
         state['corr3'] = corr3
-        return core.merge_oracles([res, res2, res3])
+        res4 = coord_common.many_sources_oracle(c)
+        return core.merge_oracles([res, res2, res3, res4])
 
     def extra(c):
         return [coord_common.trace_correspondence(c, state.get('cases', [])), worker_traces.correspondence(c, c.q(40, 400))] + list(state.get('corr3', []))
